@@ -959,6 +959,16 @@ pub fn corpus() -> Vec<(&'static str, &'static str, Vec<Op>)> {
         ("initialise_answers_error", "c05", vec![t_init(), Op::Mine { n: 1, ts: TS0 + 1 }]),
         // brc20_initialise for a height that does not exist yet, on a database that has a chain
         ("initialise_other_height", "c05", vec![t_init(), Op::Mine { n: 2, ts: TS0 + 1 }, Op::Initialise { hash: Hx::n32(0xabcdef), ts: TS0 + 3, height: 7 }, Op::Mine { n: 1, ts: TS0 + 4 }]),
+        // the indexer account has been used (a deposit in block 0, no genesis yet): a later brc20_initialise for the
+        // next height must be refused BEFORE the controller deployment runs (its address depends on that nonce)
+        ("late_initialise_after_indexer_tx", "c05", vec![
+            Op::Deposit { to_pkscript: PKSCRIPTS[0].into(), ticker: "ordi".into(), amount: "0x1".into(), ts: TS0 + 1, hash: Hx::zero32(), tx_idx: Idx::Auto, insc_id: "predepi0".into() }, t_fin(TS0 + 1),
+            Op::Initialise { hash: Hx::n32(0xfeed), ts: TS0 + 2, height: 1 }, Op::Mine { n: 1, ts: TS0 + 3 },
+            Op::Withdraw { from_pkscript: PKSCRIPTS[0].into(), ticker: "ordi".into(), amount: "0x1".into(), ts: TS0 + 4, hash: Hx::zero32(), tx_idx: Idx::Auto, insc_id: "prewiti0".into() }, t_fin(TS0 + 4),
+            Op::Initialise { hash: Hx::zero32(), ts: TS0 + 5, height: 3 }, Op::Mine { n: 1, ts: TS0 + 6 }]),
+        // genesis by brc20_initialise on a chain that was started by brc20_mine (indexer account unused): accepted
+        ("late_initialise_on_mined_chain", "c05", vec![Op::Mine { n: 2, ts: TS0 + 1 }, Op::Initialise { hash: Hx::n32(0xbeef), ts: TS0 + 2, height: 2 }, Op::Mine { n: 1, ts: TS0 + 3 },
+            Op::Initialise { hash: Hx::n32(0xbeef), ts: TS0 + 2, height: 2 }, Op::Initialise { hash: Hx::n32(0xdead), ts: TS0 + 2, height: 2 }]),
         // allowance of one byte = 12000 gas < 21000: recorded, nonce not consumed; the same transaction again
         ("below_intrinsic_gas_twice", "c06", vec![t_init(), t_signed(2, 0, vec![1, 2, 3], TS0 + 1, "lowi0", 1), t_signed(2, 0, vec![1, 2, 3], TS0 + 1, "againi0", 2000), t_fin(TS0 + 1)]),
         ("below_intrinsic_gas_inscription", "c06", vec![t_init(),
